@@ -385,6 +385,116 @@ fn session_inputs(report: &Report) {
     }
 }
 
+/// Environment answer "error": the k-th log append inside one op FAILS (the log's fault seam, armed
+/// for the calling thread). A failed append may lose its frame - it must not lose or repeat a
+/// NUMBER: whatever is appended to the store afterwards, every stream still reads 0..n-1 and
+/// validated replay passes, also after a restart and one more append. Pre-states: the op is the
+/// authority's first append to the thread after a restart (counter resolved from the log / the
+/// caches at that moment), or a later one (warm counter).
+fn failed_appends(report: &Report) {
+    use crate::hops::{apply, name, Track, H};
+    use std::sync::atomic::{AtomicI64, Ordering};
+    struct FailEnv {
+        left: Arc<AtomicI64>,
+    }
+    impl crate::sched::ActorEnv for FailEnv {
+        fn fail(&self, name: &str) -> bool {
+            if name != "log.append" {
+                return false;
+            }
+            let v = self.left.load(Ordering::SeqCst);
+            if v < 0 {
+                return false;
+            }
+            self.left.store(v - 1, Ordering::SeqCst);
+            v == 0
+        }
+    }
+    let failing: Vec<H> = vec![
+        H::Msg,
+        H::RunSpawnOnly,
+        H::RunEndOldest,
+        H::Side,
+        H::Cursor(0),
+        H::Rotate,
+        H::SelPair,
+        H::Ckpt(0),
+        H::Auto { stride: 1, max_new: 2, dry: false },
+        H::Sched { stride: 1, max_new: 1, block: false, execute: true, dry: false },
+        H::Branch(0),
+        H::Handoff(0),
+    ];
+    let pres: Vec<Vec<H>> = vec![vec![H::Msg], vec![H::RunSpawnOnly, H::Msg], vec![H::Msg, H::Cursor(0), H::Ckpt(0), H::Msg]];
+    let mids: Vec<Vec<H>> = vec![vec![], vec![H::Restart], vec![H::DropCaches, H::Restart]];
+    let mut cases: Vec<(Vec<H>, usize, usize)> = Vec::new();
+    for pre in &pres {
+        for mid in &mids {
+            for op in &failing {
+                for k in 0..3usize {
+                    for again in [false, true] {
+                        let mut h = pre.clone();
+                        h.extend(mid.iter().cloned());
+                        let at = h.len();
+                        h.push(op.clone());
+                        if again {
+                            h.push(op.clone());
+                        }
+                        h.push(H::Msg);
+                        cases.push((h, at, k));
+                    }
+                }
+            }
+        }
+    }
+    report.set_extra("failed_append_histories", json!(cases.len()));
+    let failed_total = std::sync::atomic::AtomicUsize::new(0);
+    cases.par_iter().for_each_init(crate::fixture::new_rt, |rt, (hist, at, k)| {
+        if report.over_cap() {
+            return;
+        }
+        let left = Arc::new(AtomicI64::new(-1));
+        crate::sched::set_thread_env(Some(Box::new(FailEnv { left: left.clone() })));
+        let mut fx = Fx::new(rt.clone());
+        let thread = fx.store().ensure_default().expect("thread");
+        let mut t = Track::new(thread.clone());
+        let mut failed = false;
+        for (i, op) in hist.iter().enumerate() {
+            if i == *at {
+                left.store(*k as i64, Ordering::SeqCst);
+            }
+            let _ = apply(&mut fx, &mut t, op);
+            if i == *at {
+                failed = left.swap(-1, Ordering::SeqCst) < 0;
+            }
+        }
+        crate::sched::set_thread_env(None);
+        if failed {
+            failed_total.fetch_add(1, Ordering::SeqCst);
+            report.count("ops_in_which_a_log_append_failed", 1);
+        }
+        report.eval(Some(&("failed_append", hist.iter().map(name).collect::<Vec<_>>(), at, k)));
+        let case = json!({"engine": "H-histories", "harness": "c01.failed_appends", "history": hist.iter().map(name).collect::<Vec<_>>(), "failing_log_append": {"op_index": at, "append_no": k}});
+        let sig_op = name(&hist[*at]);
+        let warm = if hist[..*at].iter().any(|h| matches!(h, H::Restart)) { "first_append_after_restart" } else { "warm" };
+        if let Err((sig, msg)) = check_log(&fx, &[], "after_failed_append") {
+            report.violation(&format!("C01:{sig}:{sig_op}:{warm}"), case, &msg);
+            return;
+        }
+        fx.restart();
+        let mut threads = vec![thread.clone()];
+        threads.extend(t.children.iter().cloned());
+        for th in &threads {
+            let _ = fx.store().append_message(th, "verif".into(), "user".into(), "after restart".into());
+        }
+        if let Err((sig, msg)) = check_log(&fx, &[], "after_failed_append_restart_append") {
+            report.violation(&format!("C01:{sig}:{sig_op}:{warm}"), case, &msg);
+        }
+    });
+    if !report.over_cap() && failed_total.load(std::sync::atomic::Ordering::SeqCst) == 0 {
+        crate::common::machinery_failure("c01: no injected log-append failure was observed (the fault seam is not reached)");
+    }
+}
+
 /// Ids of the wrong kind. Streams are keyed by (kind, id); every id-addressed writer route is
 /// called with the id of a stream of EACH kind (a finished session, a finished task, the thread
 /// itself, a fresh uuid, a hostile string). Whatever the route answers, every (kind, id) stream of
@@ -556,6 +666,10 @@ pub fn run(opts: Opts) -> i32 {
                 report.replay_by_re_enumeration(path);
                 session_inputs(&report);
             }
+            "c01.failed_appends" => {
+                report.replay_by_re_enumeration(path);
+                failed_appends(&report);
+            }
             "c01.cross_kind_ids" => {
                 report.replay_by_re_enumeration(path);
                 cross_kind_ids(&report);
@@ -621,6 +735,8 @@ pub fn run(opts: Opts) -> i32 {
             session_inputs(report);
             // every id-addressed writer route called with the id of a stream of every kind
             cross_kind_ids(report);
+            // the k-th log append inside one op fails; the numbering must survive it
+            failed_appends(report);
         });
         configs.par_iter().for_each(|(pre, ops, b, extra)| {
             if report.over_cap() {
